@@ -26,17 +26,17 @@ package ir
 
 // Operand reordering happens only for operators that commute on the operand type (string + does not).
 //@ func isCommutative
-//@   ensures [C03.comm] result ==> instr.Op == token.ADD || instr.Op == token.MUL || instr.Op == token.EQL || instr.Op == token.NEQ || instr.Op == token.AND || instr.Op == token.OR || instr.Op == token.XOR
-//@   ensures [C03.comm] result && instr.Op == token.ADD ==> numericT(typeOfV(instr.X))
+//@   ensures [C03.comm] [C04.norm] result ==> instr.Op == token.ADD || instr.Op == token.MUL || instr.Op == token.EQL || instr.Op == token.NEQ || instr.Op == token.AND || instr.Op == token.OR || instr.Op == token.XOR
+//@   ensures [C03.comm] [C04.norm] result && instr.Op == token.ADD ==> numericT(typeOfV(instr.X))
 //@   ensures [C02.comm] instr.Op == token.MUL || instr.Op == token.AND || instr.Op == token.OR || instr.Op == token.XOR || instr.Op == token.EQL || instr.Op == token.NEQ ==> result
 //@   ensures [C02.comm] instr.Op == token.ADD && isBasicT(typeOfV(instr.X)) && bitand(infoT(typeOfV(instr.X)), types.IsInteger) != 0 ==> result
 
 // Only side-effect-free builtins are hoisted out of loops, and len/cap never on maps or channels.
 //@ pred builtinName(call *ssa.Call) = purecall("(*golang.org/x/tools/go/ssa.Builtin).Name", dyn(call.Call.Value, "*ssa.Builtin"))
 //@ func (*Canonicalizer).isPureBuiltin
-//@   ensures [C03.hoist] result ==> hasType(call.Call.Value, "*ssa.Builtin")
-//@   ensures [C03.hoist] result ==> builtinName(call) == "len" || builtinName(call) == "cap" || builtinName(call) == "complex" || builtinName(call) == "real" || builtinName(call) == "imag" || builtinName(call) == "min" || builtinName(call) == "max"
-//@   ensures [C03.hoist] result && (builtinName(call) == "len" || builtinName(call) == "cap") && len(call.Call.Args) > 0 ==> !hasType(underT(typeOfV(call.Call.Args[0])), "*types.Map") && !hasType(underT(typeOfV(call.Call.Args[0])), "*types.Chan")
+//@   ensures [C03.hoist] [C04.norm] result ==> hasType(call.Call.Value, "*ssa.Builtin")
+//@   ensures [C03.hoist] [C04.norm] result ==> builtinName(call) == "len" || builtinName(call) == "cap" || builtinName(call) == "complex" || builtinName(call) == "real" || builtinName(call) == "imag" || builtinName(call) == "min" || builtinName(call) == "max"
+//@   ensures [C03.hoist] [C04.norm] result && (builtinName(call) == "len" || builtinName(call) == "cap") && len(call.Call.Args) > 0 ==> !hasType(underT(typeOfV(call.Call.Args[0])), "*types.Map") && !hasType(underT(typeOfV(call.Call.Args[0])), "*types.Chan")
 
 // ---- C03 / C04 / C02: how a reference to a function is rendered into the canonical IR
 // A callee outside the family of the function being canonicalised is rendered by its full identity (package path,
